@@ -20,6 +20,7 @@ def strlit(n):
 
 class ProgramOptionsSave(Contract):
     name = 'vfps::ProgramOptions::save'
+    replay = lambda self, o, model, pid: {'harness': 'po_replay', 'runs': [['getters'], ['roundtrip']], 'all': True, 'hdf5': True}
     tu = 'src/IO/ProgramOptions.cpp'
     tags = {'C13'}
 
@@ -315,6 +316,7 @@ class ProgramOptionsGetters(Contract):
     Facts from the real AST: registration table of the constructor (option name -> &member) and the returned member of each getter.
     The table below is the statement: accessor -> option name(s) of the quantity (legacy aliases of the same quantity allowed)."""
     name = 'vfps::ProgramOptions::get*'
+    replay = lambda self, o, model, pid: {'harness': 'po_replay', 'runs': [['getters'], ['roundtrip']], 'all': True, 'hdf5': True}
     tu = 'src/IO/ProgramOptions.cpp'
     tags = {'C03', 'C04', 'C05', 'C06', 'C09', 'C10', 'C11', 'C12', 'C13', 'C15', 'C16', 'C17', 'C19'}
     GETTERS = {
